@@ -531,18 +531,21 @@ def _some_mark_named(nm):
 
 
 _UPD = "markAnchorNames.update((a.name for a in anchors if a.isMark))"
+_KEY_OF_NAME = _ALL_ANCHORS.format(body=f"{_at('a', 'b')}.key == an_key({_at('a', 'b')}.name)")
+# Two contracts on the same function, because the two directions of "markAnchorNames == names of the mark anchors" need different
+# facts about `S.update(<filtered generator>)`: the forall-exists membership axiom (comp_membership) that the "only mark anchors" direction
+# needs makes the "every mark anchor" direction (pure forall) time out in every solver configuration.  Each variant carries only the
+# hypotheses of its own direction.  m0 / mprev: ghost snapshots of markAnchorNames (m0 == the set at every head of loop 1, mprev == the
+# set before the update of this iteration); the effect of the one `update` statement is stated as small hints, proved there.
 contract(
     W + "MarkFeatureWriter._getAnchorPairs",
     props=["C06"],
     params={"self": Ref("C06_Writer")},
     returns=Dict(STR, STR),
-    comp_membership=True,  # membership characterisation of `S.update(<filtered generator>)` (opt-in engine axiom)
     # class invariant of NamedAnchor: the key is a function of the name (NamedAnchor.__init__ 'classified')
-    requires=[_ALL_ANCHORS.format(body=f"{_at('a', 'b')}.key == an_key({_at('a', 'b')}.name)")],
+    requires=[_KEY_OF_NAME],
     ensures={
-        # a pair is recorded only if SOME glyph carries a mark anchor of exactly that name (equality, not prefix)
-        "only-with-counterpart": f"all({_some_mark_named('result[k]')} for k in result)",
-        # every recorded value is '_' + key of a base anchor of that name the name of a base anchor to '_' + that anchor's key
+        # every recorded pair maps the name of a base anchor to '_' + that anchor's key
         "base-anchor-of-that-key": f"all(any(any(not {_at('a', 'b')}.isMark and {_at('a', 'b')}.name == k and result[k] == '_' + {_at('a', 'b')}.key"
         f" for b in range(len({AL}[{KEYS}[a]]))) for a in range(len({KEYS}))) for k in result)",
         # ... and every base anchor whose '_' + key is the name of some mark anchor is recorded
@@ -551,29 +554,45 @@ contract(
     },
     canaries={"empty": "len(result) == 0"},
     locals={"markAnchorNames": Set(STR), "anchorPairs": Dict(STR, STR), "m0": Set(STR), "mprev": Set(STR)},
-    # m0 / mprev: ghost snapshots of markAnchorNames (m0 == the set at every loop head, mprev == the set before the update of this iteration)
     ghost_vars={"wa": (Dict(STR, INT), "{}"), "wb": (Dict(STR, INT), "{}"), "m0": (Set(STR), "set()"), "mprev": (Set(STR), "set()")},
     ghost={"anchorPairs[anchor.name] = markAnchorName": ["wa = {**wa, anchor.name: i2}", "wb = {**wb, anchor.name: j}"],
            _UPD: ["mprev = m0", "m0 = markAnchorNames"]},
-    # the effect of the one `update` statement, as three small facts (proved there, then used by the invariants)
     hints={_UPD: [
         "all(n in markAnchorNames for n in mprev)",
         "all(implies(anchors[b].isMark, anchors[b].name in markAnchorNames) for b in range(len(anchors)))",
-        "all(n in mprev or any(anchors[b].isMark and anchors[b].name == n for b in range(len(anchors))) for n in markAnchorNames)",
     ]},
     loops={
-        "for anchors in self.context.anchorLists.values()#1": Loop(index="i1", invariants={"snapshot": "m0 == markAnchorNames", "m-complete": _m_complete("i1"), "m-sound": _m_sound("i1")}),
+        "for anchors in self.context.anchorLists.values()#1": Loop(index="i1", invariants={"snapshot": "m0 == markAnchorNames", "m-complete": _m_complete("i1")}),
         "for anchors in self.context.anchorLists.values()#2": Loop(index="i2", invariants={
-            "in-marks": "all(anchorPairs[k] in markAnchorNames for k in anchorPairs)",
             "wit": _p_wit("wa[k] < i2"),
             "complete": _p_complete("i2"),
         }),
         "for anchor in anchors": Loop(index="j", invariants={
-            "in-marks": "all(anchorPairs[k] in markAnchorNames for k in anchorPairs)",
             "wit": _p_wit("(wa[k] < i2 or (wa[k] == i2 and wb[k] < j))"),
             "complete": _p_complete("i2"),
             "complete-cur": "all(implies(not anchors[b].isMark and ('_' + anchors[b].key) in markAnchorNames, anchors[b].name in anchorPairs and anchorPairs[anchors[b].name] == '_' + anchors[b].key) for b in range(j))",
         }),
+    },
+)
+
+contract(
+    W + "MarkFeatureWriter._getAnchorPairs",
+    name="counterpart",
+    props=["C06"],
+    params={"self": Ref("C06_Writer")},
+    returns=Dict(STR, STR),
+    comp_membership=True,  # membership characterisation of `S.update(<filtered generator>)` (opt-in engine axiom)
+    ensures={
+        # a pair is recorded only if SOME glyph carries a mark anchor of exactly that name (equality, not prefix)
+        "only-with-counterpart": f"all({_some_mark_named('result[k]')} for k in result)",
+    },
+    canaries={"empty": "len(result) == 0"},
+    locals={"markAnchorNames": Set(STR), "anchorPairs": Dict(STR, STR)},
+    # (no hint at the update statement here: an extra forall-exists fact about the new set slows this step down)
+    loops={
+        "for anchors in self.context.anchorLists.values()#1": Loop(index="i1", invariants={"m-sound": _m_sound("i1")}),
+        "for anchors in self.context.anchorLists.values()#2": Loop(index="i2", invariants={"in-marks": "all(anchorPairs[k] in markAnchorNames for k in anchorPairs)"}),
+        "for anchor in anchors": Loop(index="j", invariants={"in-marks": "all(anchorPairs[k] in markAnchorNames for k in anchorPairs)"}),
     },
 )
 
@@ -802,7 +821,7 @@ CONTRACTS[W + "AbstractMarkPos.__init__"].runtime = Runtime(
     lambda rng, n: [{"name": "a", "n": k} for k in range(3)][:n], _pos_build, call=lambda fn, a: fn(a["self"], a["name"], a["marks"])
 )
 
-for _fn, _stage in (("_getAnchorPairs", "context"), ("_setBaseAnchorMarkClasses", "classes"), ("_makeMarkToBaseAttachments", "assigned"), ("_makeMarkToLigaAttachments", "assigned")):
+for _fn, _stage in (("_getAnchorPairs", "context"), ("_getAnchorPairs#counterpart", "context"), ("_setBaseAnchorMarkClasses", "classes"), ("_makeMarkToBaseAttachments", "assigned"), ("_makeMarkToLigaAttachments", "assigned")):
     CONTRACTS[W + "MarkFeatureWriter." + _fn].runtime = Runtime(
         c06rt.stage_cases, (lambda st: (lambda d: {"self": c06rt.writer_at(d, st)}))(_stage), call=lambda fn, a: fn(a["self"])
     )
